@@ -110,27 +110,9 @@ def arch32_lines(prop, tier, seed):
 
 
 def cold_lines(binary, lang, seed, rnd):
-    d = vlib.scratch("verif-cold-")
-    out = os.path.join(d, "cold.ndjson")
-    env = dict(os.environ, VERIF_DATA=os.path.join(vlib.SPEC, "data"), GOMAXPROCS=str([16, 4, 8][rnd % 3]))
-    r = subprocess.run(["timeout", "300", binary, "cold", "-lang", str(lang), "-seed", str(seed), "-n", str(rnd), "-out", out],
-                       capture_output=True, text=True, env=env)
-    lines = vlib.read_trace(out) if os.path.exists(out) else []
-    if lines and not lines[-1].endswith("\n"):
-        lines = lines[:-1]
-    if r.returncode != 0:
-        # the Go runtime ends the process on unsynchronised map access ("fatal error: concurrent map ..."), which no
-        # recover can stop: behaviour of the real code, recorded as a Crash event
-        if "github.com/islishude/bip39" in r.stderr and ("fatal error" in r.stderr or "panic:" in r.stderr):
-            if not any('"cold":true' in x for x in lines):        # died before its buffered output reached the file
-                lines = [json.dumps({"op": "Reset", "fresh_process": True, "seed": seed, "tier": "quick", "prop": ""}, separators=(",", ":")) + "\n",
-                         json.dumps({"op": "Cut", "source": "os", "cold": True, "cold_lang": lang, "cold_seed": seed, "cold_round": rnd}, separators=(",", ":")) + "\n"]
-            lines.append(json.dumps({"op": "Crash", "conc": True, "panicked": True, "timeout": False,
-                                     "panic": [ord(c) for c in r.stderr[:1200] if ord(c) < 0x110000]}) + "\n")
-        else:
-            raise Infra("harness cold failed rc=%d: %s" % (r.returncode, r.stderr[-1500:]))
-    vlib.shutil.rmtree(d, ignore_errors=True)
-    return lines
+    return run_scenario(binary, ["cold", "-lang", str(lang), "-seed", str(seed), "-n", str(rnd)],
+                        {"cold": True, "cold_lang": lang, "cold_seed": seed, "cold_round": rnd}, timeout=300,
+                        env_extra={"GOMAXPROCS": str([16, 4, 8][rnd % 3])})[0]
 
 
 def cold_start(binary, tier, seed):
@@ -143,33 +125,69 @@ def cold_start(binary, tier, seed):
     return lines
 
 
+def run_scenario(binary, args, cut_fields=None, timeout=900, race=False, env_extra=None):
+    """one harness scenario in a fresh process -> (event lines, race detector text).  A process that the Go runtime
+    ends inside the library (unsynchronised map access, a panic on another goroutine, out of memory) is behaviour
+    of the real code: recorded as a Crash event at the end of the unit (the unit's opening lines are written here
+    when the process died before its buffered output reached the file)."""
+    d = vlib.scratch("verif-sc-")
+    out, rl = os.path.join(d, "t.ndjson"), os.path.join(d, "race")
+    env = dict(os.environ, VERIF_DATA=os.path.join(vlib.SPEC, "data"),
+               GORACE=("log_path=%s atexit_sleep_ms=0 halt_on_error=0" % rl) if race else "atexit_sleep_ms=0")
+    if env_extra:
+        env.update(env_extra)
+    r = subprocess.run(["timeout", str(timeout), binary] + args + ["-out", out], capture_output=True, text=True, env=env)
+    lines = vlib.read_trace(out) if os.path.exists(out) else []
+    if lines and not lines[-1].endswith("\n"):
+        lines = lines[:-1]
+    cf = dict(cut_fields or {})
+    if r.returncode not in ((0, 66) if race else (0,)):
+        if "github.com/islishude/bip39" in r.stderr and ("fatal error" in r.stderr or "panic:" in r.stderr):
+            if not any('"op":"Cut"' in x for x in lines):
+                lines = [json.dumps({"op": "Reset", "fresh_process": True, "seed": 0, "tier": "quick", "prop": ""}, separators=(",", ":")) + "\n",
+                         json.dumps(dict({"op": "Cut", "source": "os"}, **cf), separators=(",", ":")) + "\n"]
+            lines.append(json.dumps({"op": "Crash", "conc": True, "panicked": True, "timeout": False,
+                                     "panic": [ord(c) for c in r.stderr[:1200] if ord(c) < 0x110000]}) + "\n")
+        else:
+            raise Infra("harness %s failed rc=%d: %s" % (args[0], r.returncode, r.stderr[-1500:]))
+    if cf:
+        first = next(iter(cf))
+        extra = json.dumps(cf, separators=(",", ":"))[1:-1]
+        lines = [x.replace('"op":"Cut"', '"op":"Cut",' + extra, 1) if ('"op":"Cut"' in x and '"%s"' % first not in x) else x for x in lines]
+    text = ""
+    if race:
+        text = "".join(open(os.path.join(d, f), errors="replace").read() for f in sorted(os.listdir(d)) if f.startswith("race"))
+    vlib.shutil.rmtree(d, ignore_errors=True)
+    return lines, text
+
+
 def concuni_lines(binary, tier, seed, runs=None):
     """callers holding different texts in non-normal forms validate and derive at the same time, in fresh processes"""
     lines = []
     for k in range(runs or (6 if tier == "quick" else 40)):
-        d = vlib.scratch("verif-cu-")
-        out = os.path.join(d, "cu.ndjson")
-        vlib.run_harness(binary, ["concuni", "-tier", "quick" if tier == "quick" or k % 8 else "thorough", "-seed", str(seed * 100 + k), "-out", out], timeout=900)
-        ls = vlib.read_trace(out)
+        t = "quick" if tier == "quick" or k % 8 else "thorough"
         # the unit is marked so that a failure in it is confirmed by running the scenario again
-        ls = [x.replace('"op":"Cut"', '"op":"Cut","concuni_seed":%d,"concuni_tier":"%s"' % (seed * 100 + k, "quick" if tier == "quick" or k % 8 else "thorough"), 1)
-              if '"op":"Cut"' in x else x for x in ls]
+        ls, _ = run_scenario(binary, ["concuni", "-tier", t, "-seed", str(seed * 100 + k)], {"concuni_seed": seed * 100 + k, "concuni_tier": t})
         lines += ls
-        vlib.shutil.rmtree(d, ignore_errors=True)
     return lines
 
 
 def batch_lines(binary, tier, seed):
     """batch generation from one caller buffer cut into chunks (sequential, then one goroutine per chunk)"""
-    d = vlib.scratch("verif-batch-")
-    out = os.path.join(d, "batch.ndjson")
-    vlib.run_harness(binary, ["batch", "-tier", tier, "-seed", str(seed), "-out", out], timeout=900)
-    lines = vlib.read_trace(out)
-    vlib.shutil.rmtree(d, ignore_errors=True)
-    return lines
+    return run_scenario(binary, ["batch", "-tier", tier, "-seed", str(seed)], {"batch_seed": seed, "batch_tier": tier})[0]
 
 
-def gen_recorder(prop, arch32=True, cold=False, concuni=False, batch=False):
+def concheck_lines(binary, tier, seed):
+    """validations overlapping in time on inputs chosen so that a leak between calls changes a verdict"""
+    return run_scenario(binary, ["concheck", "-tier", tier, "-seed", str(seed)], {"concheck_seed": seed, "concheck_tier": tier})[0]
+
+
+def overlap_lines(binary, tier, seed):
+    """calls overlapping in time on one injected source (held inside Read; unsynchronised hammer)"""
+    return run_scenario(binary, ["overlap", "-tier", tier, "-seed", str(seed)], {"overlap_seed": seed, "overlap_tier": tier})[0]
+
+
+def gen_recorder(prop, arch32=True, cold=False, concuni=False, batch=False, concheck=False):
     def rec(binary, tier, seed):
         d = vlib.scratch("verif-tr-")
         out = os.path.join(d, "trace.ndjson")
@@ -183,6 +201,10 @@ def gen_recorder(prop, arch32=True, cold=False, concuni=False, batch=False):
             lines += concuni_lines(binary, tier, seed)
         if batch:
             lines += batch_lines(binary, tier, seed)
+        if concheck:
+            lines += concheck_lines(binary, tier, seed)
+        if prop == "C08":
+            lines += golden_tool_lines(binary)      # `make update-wordlist` on the canonical upstream reproduces the lists
         return lines, sum(1 for x in lines if '"op":"Reset"' in x), {}
     return rec
 
@@ -217,6 +239,22 @@ def cold_replay(prop):
                 if mine:
                     return (False, "concurrent callers with texts in non-normal forms, %d fresh processes: %d failing calls" % (tried, len(mine)))
             return (True, "concurrent callers with texts in non-normal forms, %d fresh processes, no failing call" % tried)
+        k = json.load(open(path)).get("failing_event", 0)
+        if 0 < k <= len(unit) and unit[k - 1].get("op") == "Gen":
+            lines = golden_tool_lines(binary)
+            v = vlib.validate(lines, [prop], shards=1)
+            mine = [b for b in v.bad if b[1] == prop]
+            return (len(mine) == 0, "the generator run again on the canonical lists: %d Gen events, %d failing" % (len(lines) // 2, len(mine)))
+        if "concheck_seed" in cut:
+            for attempt in range(6):
+                lines = concheck_lines(binary, cut["concheck_tier"], cut["concheck_seed"] + attempt)
+                v = vlib.validate(lines, [prop], shards=2)
+                if v.infra:
+                    raise Infra("replay trace unusable: %s" % v.infra[:3])
+                mine = [b for b in v.bad if b[1] == prop]
+                if mine:
+                    return (False, "overlapping validations run again (%d times): %d failing observations" % (attempt + 1, len(mine)))
+            return (True, "overlapping validations run again 6 times, no failing observation")
         if "batch_seed" in cut:
             for attempt in range(10):
                 lines = batch_lines(binary, cut["batch_tier"], cut["batch_seed"] + attempt)
@@ -256,6 +294,8 @@ def phased_recorder(prop):
         vlib.run_harness(binary, ["gen", "-prop", prop, "-tier", tier, "-seed", str(seed), "-out", out])
         lines = vlib.read_trace(out)
         lines += arch32_lines(prop, tier, seed)
+        if prop == "C14":
+            lines += cold_start(binary, tier, seed)     # first calls of a fresh process made by many goroutines at once
         out2 = os.path.join(d, "extreme.ndjson")
 
         def limit():
@@ -296,6 +336,8 @@ def phased_replay(prop):
     """a recorded process death is confirmed by running the extreme phase again; everything else is re-executed call by call"""
     def rp(path, binary):
         unit = json.load(open(path))["unit"]
+        if unit and (unit[0].get("cold") or "concuni_seed" in unit[0] or "batch_seed" in unit[0]):
+            return cold_replay(prop)(path, binary)
         if any(e.get("op") == "Crash" for e in unit):
             reset = next((e for e in unit if e.get("op") == "Reset"), {})
             _, crashed, r = phased_extreme(binary, prop, reset.get("tier", "quick"), reset.get("seed", 1))
@@ -446,14 +488,14 @@ RECIPES = {
                 speaks=lambda e: is_check(e) and (e.get("gen") or e.get("op") == "Sweep"),
                 rule="mnemonics generated by NewMnemonicByEntropy / NewMnemonic fed back into CheckMnemonic+IsMnemonicValid, and last-word sweeps "
                      "(the 2^(11-CS) predicted words must all be accepted); distinct by (sentence, language); canonical validity is decided by TLC from the input alone"),
-    "C03": dict(mc=[mc_codec(True)], record=gen_recorder("C03"), props=["C03"], speaks=is_check,
+    "C03": dict(mc=[mc_codec(True)], record=gen_recorder("C03", concheck=True), replay=cold_replay("C03"), prefix_ok=True, props=["C03"], speaks=is_check,
                 rule="CheckMnemonic/IsMnemonicValid verdicts on damaged sentences (all 2047 substitutions at a position, transpositions, count changes, other lists, "
                      "case/affix damage, separators, byte fuzz) and sweeps of all 2048 last words; distinct by (input, language)"),
     "C15": dict(mc=[mc_codec(False)], record=gen_recorder("C15"), props=["C15"], speaks=lambda e: e.get("op") == "Check",
                 rule="CheckMnemonic error values on sentences with one class of defect (counts 0..30, unknown tokens at every position, wrong last word) "
                      "and on the C03 mutation classes; distinct by (input, language)"),
     "C08": dict(mc=[MC_LISTS], record=gen_recorder("C08", cold=True), replay=cold_replay("C08"), prefix_ok=True, props=["C08"], exhaustive=True, need_cover=True,
-                speaks=lambda e: e.get("op") in ("ByEntropy", "Check", "ListSource"),
+                speaks=lambda e: e.get("op") in ("ByEntropy", "Check", "ListSource", "Gen"),
                 rule="all 10 x 2048 list indices: the word emitted through NewMnemonicByEntropy for every index (cover family), validation of sentences "
                      "containing every word and of the same sentences with one word replaced by a list neighbour, and the parsed source text of internal/wordlist/*.go"),
     "C09": dict(mc=[MC_GATES, proof_gates], record=phased_recorder("C09"), replay=phased_replay("C09"), props=["C09", "DRIFT"], exhaustive=True,
@@ -464,10 +506,10 @@ RECIPES = {
                 speaks=lambda e: "panicked" in e,
                 rule="product of argument classes (21 Language values x strings incl. every invalid-UTF-8 shape x entropy sizes x counts), fuzzed bytes, "
                      "multi-megabyte inputs, each call under recover and a 120 s watchdog; distinct by (operation, arguments)"),
-    "C16": dict(mc=[MC_NAMES], record=gen_recorder("C16"), props=["C16"], exhaustive=True,
+    "C16": dict(mc=[MC_NAMES], record=gen_recorder("C16", cold=True), replay=cold_replay("C16"), prefix_ok=True, props=["C16"], exhaustive=True,
                 speaks=lambda e: e.get("op") == "String",
                 rule="Language(N).String() for every N in -70000..70000 and 42 extreme values; distinct by N"),
-    "C04": dict(mc=[MC_UNICODE, mc_kdf], record=gen_recorder("C04"), props=["C04"], speaks=lambda e: e.get("op") == "ToSeed",
+    "C04": dict(mc=[MC_UNICODE, mc_kdf], record=gen_recorder("C04", concuni=True), replay=cold_replay("C04"), prefix_ok=True, props=["C04"], speaks=lambda e: e.get("op") == "ToSeed",
                 rule="MnemonicToSeed on the product of argument classes (empty, ASCII, list words in NFC/NFD/NFKC/NFKD, full-width, compatibility characters, reordering marks, "
                      "passphrases beginning with marks, lengths around the 128-byte HMAC block, 4096 bytes, invalid sentences, random Unicode 14 text); distinct by (mnemonic, passphrase)"),
     "C10": dict(mc=[MC_UNICODE, MC_LISTS], record=gen_recorder("C10", concuni=True), replay=cold_replay("C10"), prefix_ok=True, props=["C10"], speaks=lambda e: e.get("op") == "Check" and "group" in e,
@@ -675,9 +717,7 @@ def record_c06(binary, tier, seed):
     vlib.run_harness(binary, ["prog", "-arg", prog, "-seed", str(seed), "-out", out])
     lines = vlib.read_trace(out)
     # overlapping calls on one injected source (a call held inside Read while another runs to completion)
-    out2 = os.path.join(d, "overlap.ndjson")
-    vlib.run_harness(binary, ["overlap", "-tier", tier, "-seed", str(seed), "-out", out2])
-    ov = vlib.read_trace(out2)
+    ov = overlap_lines(binary, tier, seed)
     lines += ov
     nrun += sum(1 for x in ov if '"op":"NewMnemonic"' in x)
     return lines, nrun, {"graph_edges_replayed": nedges, "reader_runs": nrun, "exhaustive_edge_cover": True}
@@ -690,10 +730,10 @@ def replay_c06(path, binary):
     d = vlib.scratch("verif-rp-")
     out = os.path.join(d, "replay.ndjson")
     if cut is not None:
-        vlib.run_harness(binary, ["overlap", "-tier", cut["overlap_tier"], "-seed", str(cut["overlap_seed"]), "-out", out])
+        lines = overlap_lines(binary, cut["overlap_tier"], cut["overlap_seed"])
     else:
         vlib.run_harness(binary, ["replay", "-arg", path, "-out", out])
-    lines = vlib.read_trace(out)
+        lines = vlib.read_trace(out)
     v = vlib.validate(lines, ["C06"], shards=1 if cut is None else 4)
     if v.infra:
         raise Infra("replay trace unusable: %s" % v.infra[:3])
@@ -794,9 +834,7 @@ def record_c07(binary, tier, seed):
             nproc += 1
     # calls that overlap in time on one source (a call held inside Read while another runs to completion): each call's
     # output is still made of the bytes its own reads delivered, nobody else's
-    out2 = os.path.join(d, "overlap.ndjson")
-    vlib.run_harness(binary, ["overlap", "-tier", tier, "-seed", str(seed), "-out", out2])
-    lines += vlib.read_trace(out2)
+    lines += overlap_lines(binary, tier, seed)
     nproc += 1
     if observed == 0:
         vlib.log("note: getrandom is not observable with this toolchain; C07 falls back to source identity + well-formed, fresh outputs")
@@ -808,10 +846,7 @@ def replay_c07(path, binary):
     rp = json.load(open(path))
     cut = next((e for e in rp["unit"] if e.get("op") == "Cut" and "overlap_seed" in e), None)
     if cut is not None:
-        d = vlib.scratch("verif-rp-")
-        out = os.path.join(d, "replay.ndjson")
-        vlib.run_harness(binary, ["overlap", "-tier", cut["overlap_tier"], "-seed", str(cut["overlap_seed"]), "-out", out])
-        lines = vlib.read_trace(out)
+        lines = overlap_lines(binary, cut["overlap_tier"], cut["overlap_seed"])
         v = vlib.validate(lines, ["C07"], shards=4)
         if v.infra:
             raise Infra("replay trace unusable: %s" % v.infra[:3])
@@ -1166,33 +1201,23 @@ def record_c12(binary, tier, seed):
             nraces += n
     for dd in dirs:
         vlib.shutil.rmtree(dd, ignore_errors=True)
-    # overlapping NewMnemonic calls on one injected source, under the race detector
-    od = vlib.scratch("verif-conc-")
-    out2, rl = os.path.join(od, "overlap.ndjson"), os.path.join(od, "race")
-    env = dict(os.environ, VERIF_DATA=os.path.join(vlib.SPEC, "data"), GORACE="log_path=%s atexit_sleep_ms=0 halt_on_error=0" % rl)
-    r = subprocess.run(["timeout", "600", binary, "overlap", "-tier", tier, "-seed", str(seed), "-out", out2], capture_output=True, text=True, env=env)
-    if r.returncode not in (0, 66):
-        raise Infra("overlap harness failed rc=%d: %s" % (r.returncode, r.stderr[-1500:]))
-    text = "".join(open(os.path.join(od, f), errors="replace").read() for f in sorted(os.listdir(od)) if f.startswith("race"))
-    lines += vlib.read_trace(out2)
-    ev, n = race_event(text)
-    lines.append(ev)
-    nraces += n
-    # callers holding different texts in non-normal forms, validating and deriving at the same time; batch generation
-    # from one caller buffer cut into chunks (race build)
+    # under the race detector: overlapping NewMnemonic calls on one injected source; callers holding different texts in
+    # non-normal forms, validating and deriving at the same time; batch generation from one caller buffer cut into
+    # chunks; cold concurrent starts
+    scen = [(["overlap", "-tier", tier, "-seed", str(seed)], {"overlap_seed": seed, "overlap_tier": tier})]
     for k in range(4 if tier == "quick" else 24):
-        cd = vlib.scratch("verif-conc-")
-        out3, rl3 = os.path.join(cd, "cu.ndjson"), os.path.join(cd, "race")
-        env = dict(os.environ, VERIF_DATA=os.path.join(vlib.SPEC, "data"), GORACE="log_path=%s atexit_sleep_ms=0 halt_on_error=0" % rl3)
-        r = subprocess.run(["timeout", "900", binary, "concuni" if k % 4 else "batch", "-tier", "quick", "-seed", str(seed * 100 + k), "-out", out3], capture_output=True, text=True, env=env)
-        if r.returncode not in (0, 66):
-            raise Infra("concuni harness failed rc=%d: %s" % (r.returncode, r.stderr[-1500:]))
-        text = "".join(open(os.path.join(cd, f), errors="replace").read() for f in sorted(os.listdir(cd)) if f.startswith("race"))
-        lines += vlib.read_trace(out3)
+        sd = seed * 100 + k
+        scen.append((["concuni", "-tier", "quick", "-seed", str(sd)], {"concuni_seed": sd, "concuni_tier": "quick"}) if k % 4 else
+                    (["batch", "-tier", "quick", "-seed", str(sd)], {"batch_seed": sd, "batch_tier": "quick"}))
+    scen.append((["concheck", "-tier", tier, "-seed", str(seed)], {"concheck_seed": seed, "concheck_tier": tier}))
+    for k in range(4 if tier == "quick" else 40):
+        scen.append((["cold", "-lang", str((seed + 3 * k) % 10), "-seed", str(seed), "-n", str(k)], {"cold": True, "cold_lang": (seed + 3 * k) % 10, "cold_seed": seed, "cold_round": k}))
+    for (a, cf) in scen:
+        ls, text = run_scenario(binary, a, cf, race=True)
+        lines += ls
         ev, n = race_event(text)
         lines.append(ev)
         nraces += n
-        vlib.shutil.rmtree(cd, ignore_errors=True)
     return lines, len(plan), {"fresh_race_build_processes": len(plan), "race_reports": nraces,
                               "programs_available": {"firstuse": len(fu), "allops": len(ao)}}
 
@@ -1352,6 +1377,19 @@ class _Srv(http.server.BaseHTTPRequestHandler):
             self.end_headers()
             self.wfile.write(b)
 
+    def do_HEAD(self):
+        # like the real upstream (and any file server): a HEAD answer carries the length of the body
+        name = self.path.rsplit("/", 1)[-1]
+        if name not in _Srv.files:
+            self.send_response(404)
+            self.send_header("Content-Length", "0")
+            self.end_headers()
+            return
+        self.send_response(200)
+        self.send_header("Content-Length", str(len(_Srv.files[name])))
+        self.send_header("Content-Type", "text/plain; charset=utf-8")
+        self.end_headers()
+
     def log_message(self, *a):
         pass
 
@@ -1377,17 +1415,36 @@ def run_tool(tool, binary, port, inputs, golden, label, d, faults=None):
         open(os.path.join(ind, f + ".txt"), "wb").write(b)
     _Srv.files = {f + ".txt": b for f, b in inputs.items()}
     _Srv.faults = {f + ".txt": n for f, n in (faults or {}).items()}
+    # the tool runs as one user in one environment from run to run: home and cache directories persist like the output
+    home = os.path.join(d, "home")
+    os.makedirs(os.path.join(home, ".cache"), exist_ok=True)
+    tenv = dict(os.environ, VERIF_WORDLIST_URL="http://127.0.0.1:%d" % port, HOME=home, XDG_CACHE_HOME=os.path.join(home, ".cache"),
+                XDG_CONFIG_HOME=os.path.join(home, ".config"), TMPDIR=os.path.join(home, "tmp"))
+    os.makedirs(tenv["TMPDIR"], exist_ok=True)
     for attempt in range(2 + sum((faults or {}).values())):
-        r = subprocess.run(["timeout", "120", tool], cwd=outd, env=dict(os.environ, VERIF_WORDLIST_URL="http://127.0.0.1:%d" % port), capture_output=True, text=True)
+        r = subprocess.run(["timeout", "120", tool], cwd=outd, env=tenv, capture_output=True, text=True)
         if r.returncode == 0 or not faults:
             break
-    if faults and r.returncode != 0:
-        raise Infra("the tool still fails after every broken transfer was used up: %s" % r.stderr[-300:])
+    # (a tool that still fails is not special: what it left in the output directory is compared with its input below)
     _Srv.faults = {}
     args, tr = os.path.join(d, "args.json"), os.path.join(d, "gen.ndjson")
     json.dump({"indir": ind, "outdir": outd, "golden": golden, "label": label + (" tool_exit=%d" % r.returncode)}, open(args, "w"))
     vlib.run_harness(binary, ["genparse", "-arg", args, "-out", tr], env_extra={"VERIF_REPO": vlib.REPO})
     return vlib.read_trace(tr)
+
+
+def golden_tool_lines(binary):
+    """the generator run on the canonical lists: what it writes must be the golden (and the committed) lists"""
+    tool = build_tool()
+    srv = http.server.ThreadingHTTPServer(("127.0.0.1", 0), _Srv)
+    threading.Thread(target=srv.serve_forever, daemon=True).start()
+    d = vlib.scratch("verif-gen-")
+    try:
+        gold = json.load(open(os.path.join(vlib.SPEC, "data", "wordlists.json")))
+        inputs = {f: ("\n".join("".join(chr(c) for c in w) for w in gold["lists"][i]) + "\n").encode() for i, f in enumerate(FILES)}
+        return run_tool(tool, binary, srv.server_address[1], inputs, True, "golden", d)
+    finally:
+        srv.shutdown()
 
 
 def record_c17(binary, tier, seed):
@@ -1429,6 +1486,18 @@ def record_c17(binary, tier, seed):
             inputs = {f: random_list(rng, pools, rng.choice([0, 1, 2, 10, 100, 2048, 5000])).encode() for f in FILES}
             lines += run_tool(tool, binary, port, inputs, False, "random", d)
             runs += 1
+            if k % 2 == 0:
+                # upstream changes without changing its size: the same lines in another order, one word replaced by
+                # another of the same length
+                def same_size(b):
+                    ls = b.decode().split("\n")
+                    if len(ls) > 2:
+                        i, j = rng.sample(range(len(ls)), 2)
+                        ls[i], ls[j] = ls[j], ls[i]
+                    return "\n".join(ls).encode()
+                inputs2 = {f: same_size(b) for f, b in inputs.items()}
+                lines += run_tool(tool, binary, port, inputs2, False, "same-size-change", d)
+                runs += 1
     finally:
         srv.shutdown()
     return lines, runs, {"tool_runs": runs, "line_structures_available": len(_gen_structs)}
@@ -1448,6 +1517,11 @@ def replay_c17(path, binary):
         # as in the recorded run, the tool regenerates over the (longer) output of an earlier run
         longer = text + b"\n" + b"\n".join(b"zzzzzzzzzzzzzzzzzzzzzzzz" for _ in range(40)) + b"\n"
         run_tool(tool, binary, srv.server_address[1], {f: longer for f in FILES}, False, "replay-previous-run", d)
+        # ... and over a run whose upstream had the same size but other content
+        ls = text.split(b"\n")
+        other = b"\n".join(reversed(ls)) if len(ls) > 1 else bytes(reversed(text))
+        if len(other) == len(text) and other != text:
+            run_tool(tool, binary, srv.server_address[1], {f: other for f in FILES}, False, "replay-same-size-run", d)
         lines = run_tool(tool, binary, srv.server_address[1], {f: text for f in FILES}, False, "replay", d)
         lines += run_tool(tool, binary, srv.server_address[1], {f: text for f in FILES}, False, "replay-broken-transfer", d, faults={f: 1 for f in FILES[::3]})
     finally:
